@@ -1,5 +1,181 @@
-(** C11 — placeholder while the correspondence is being established. *)
-From DicomV Require Import Model.NumConv.
-Theorem C11_stub : True. Proof. exact I. Qed.
-Check C11_stub : True.
-Print Assumptions C11_stub.
+(** C11 — Numeric value conversions are exact or fail; extension and truncation
+    follow their documentation. Statements only; proofs are in
+    Proofs/NumConvP.v. The model (Model/NumConv.v) is of the code AFTER the
+    three repairs 5962513, 6e0ade7, 1a71c5e ([C11_unfixed_defects] states
+    what the code did before).
+
+    Integers are exact over Z, target types are explicit ranges. Floating
+    point casts, parsing and printing are NOT modelled: they are Section
+    variables (oracles); for floats only the count and order of the results
+    is claimed (and bit-for-bit identity when no cast is involved). *)
+From DicomV Require Import Base.RustStr Model.NumConv Proofs.NumConvP.
+
+(** ---------------------------------------------------------------- integers *)
+
+(** The single-valued conversion succeeds exactly when the first stored item
+    is a number (a stored integer, or a text that is a decimal integer under
+    Rust's syntax after trimming white space and NULs) that is representable
+    in the target type, and then returns that very number: never a wrapped or
+    truncated one. *)
+Theorem C11_int_exact : forall T v n,
+  to_int T v = Ok n <-> first_number (t_signed T) v = Some n /\ in_range T n.
+Proof. exact to_int_exact. Qed.
+
+(** The multi-valued conversion succeeds exactly when every stored item is
+    such a number, and returns exactly those numbers, in order. *)
+Theorem C11_multi_int_exact : forall T v l,
+  to_multi_int T v = Ok l <-> all_numbers (t_signed T) v = Some l /\ Forall (in_range T) l.
+Proof. exact to_multi_int_exact. Qed.
+
+(** one result per stored value *)
+Theorem C11_multi_int_len : forall T v l, to_multi_int T v = Ok l -> length l = multiplicity v.
+Proof. exact to_multi_int_length. Qed.
+
+(** a value with no items converts to the empty list (every variant that has
+    an integer reading: Empty, Strs, U8, I16, U16, I32, U32, I64, U64) *)
+Theorem C11_multi_int_empty : forall T v,
+  multiplicity v = 0%nat -> int_convertible v -> to_multi_int T v = Ok [].
+Proof. exact to_multi_int_empty. Qed.
+
+(** the single-valued conversion returns the first item *)
+Theorem C11_single_is_first : forall T v x l, to_multi_int T v = Ok (x :: l) -> to_int T v = Ok x.
+Proof. exact to_int_is_first. Qed.
+
+(** otherwise an error, never a panic *)
+Theorem C11_int_total : forall T v w, to_int T v <> Panic w /\ to_multi_int T v <> Panic w.
+Proof. exact int_conversions_no_panic. Qed.
+
+(** textual numbers are parsed after trimming spaces and NULs: a number in
+    range printed in decimal and padded on both sides converts back to itself *)
+Theorem C11_padded_text : forall T z a b,
+  in_range T z -> ((z < 0)%Z -> t_signed T = true) ->
+  Forall (fun c => ws_or_nul c = true) a -> Forall (fun c => ws_or_nul c = true) b ->
+  to_int T (PStr (a ++ print_dec_z z ++ b)) = Ok z.
+Proof. exact to_int_padded_text. Qed.
+
+(** ---------------------------------------------------------------- floats (count and order only) *)
+Section Floats.
+  Variable conv : ftarget -> fsrc -> option N.   (* NumCast / str::parse into f32, f64: outside the model *)
+
+  (** exactly one result per stored value, the i-th result being the
+      conversion of the i-th stored item *)
+  Theorem C11_multi_float : forall tgt v l,
+    to_multi_float conv tgt v = Ok l ->
+    exists srcs, float_sources tgt v = Ok srcs /\ length srcs = multiplicity v
+                 /\ Forall2 (fun s b => conv_item conv tgt s = Ok b) srcs l.
+  Proof. exact (to_multi_float_sources conv). Qed.
+
+  Theorem C11_multi_float_len : forall tgt v l,
+    to_multi_float conv tgt v = Ok l -> length l = multiplicity v.
+  Proof. exact (to_multi_float_length conv). Qed.
+
+  (** a value with no items converts to the empty list, for f32 and f64 alike *)
+  Theorem C11_multi_float_empty : forall tgt v,
+    multiplicity v = 0%nat -> float_convertible v -> to_multi_float conv tgt v = Ok [].
+  Proof. exact (to_multi_float_empty conv). Qed.
+
+  Theorem C11_float_single_is_first : forall tgt v x l,
+    to_multi_float conv tgt v = Ok (x :: l) -> to_float conv tgt v = Ok x.
+  Proof. exact (to_float_is_first conv). Qed.
+
+  (** stored floats of the requested width come back bit for bit *)
+  Theorem C11_float_same_width :
+    (forall l, to_multi_float conv TF32 (PF32 l) = Ok l) /\
+    (forall l, to_multi_float conv TF64 (PF64 l) = Ok l).
+  Proof. exact (to_multi_float_same_width conv). Qed.
+End Floats.
+
+(** ---------------------------------------------------------------- extend / truncate against a list model *)
+
+(** truncate keeps exactly the first [k] items (every variant, a single
+    string being one item) *)
+Theorem C11_truncate : forall k v,
+  items (truncate k v) = firstn k (items v) /\ multiplicity (truncate k v) = Nat.min k (multiplicity v).
+Proof. intros k v. split; [apply truncate_items | apply truncate_multiplicity]. Qed.
+
+(** extend_str appends exactly the given strings, and works exactly on
+    empty and textual values *)
+Theorem C11_extend_str : forall v ss,
+  (forall v', extend_str v ss = Ok v' -> items v' = items v ++ map IStr ss) /\
+  ((exists v', extend_str v ss = Ok v') <-> (v = PEmpty \/ (exists l, v = PStrs l) \/ (exists s, v = PStr s))) /\
+  (forall e, extend_str v ss = Err e -> e = E_incompatible_string).
+Proof.
+  intros v ss. split; [intros v'; apply extend_str_items|]. split; [apply extend_str_ok_iff|intros e; apply extend_str_err].
+Qed.
+
+Section Extend.
+  Variable ascast : ftarget -> xnum -> N.   (* x as f32 / f64 *)
+  Variable f2i : numkind -> fnum -> Z.      (* float as intN *)
+  Variable fdisp : fnum -> str.             (* float.to_string() *)
+
+  (** extend_u16 .. extend_f64 append one item per number given: its decimal
+      text for textual values, its [as] cast to the value's own number type
+      for numeric values, the number itself for an empty value; they fail
+      exactly on Tags / Date / DateTime / Time *)
+  Theorem C11_extend_num : forall src v xs,
+    (forall v', extend_num ascast f2i fdisp src v xs = Ok v' ->
+                items v' = items v ++ map (new_item ascast f2i fdisp src v) xs) /\
+    ((exists v', extend_num ascast f2i fdisp src v xs = Ok v') <-> float_convertible v).
+  Proof.
+    intros src v xs. split; [intros v'; apply extend_num_items | apply extend_num_ok_iff].
+  Qed.
+
+  (** the integer [as] cast: same residue modulo 2^bits, inside the type,
+      the identity on representable numbers *)
+  Theorem C11_extend_int_cast : forall k l z,
+    exists c, extend_num ascast f2i fdisp SI32 (PNum k l) [XInt z] = Ok (PNum k (l ++ [c]))
+      /\ (nk_lo k <= c <= nk_hi k)%Z /\ ((c - z) mod 2 ^ nk_bits k = 0)%Z
+      /\ ((nk_lo k <= z <= nk_hi k)%Z -> c = z).
+  Proof. exact (extend_num_int_cast ascast f2i fdisp). Qed.
+End Extend.
+
+(** ---------------------------------------------------------------- the repaired defects *)
+Theorem C11_unfixed_defects :
+  to_multi_int_unfixed T_i32 (PNum KI32 []) = Err E_none /\
+  to_multi_int_unfixed T_i32 (PNum KU64 []) = Err E_none /\
+  to_multi_int_unfixed T_i32 (PNum KI64 []) = Err E_none /\
+  float_sources_unfixed TF64 PEmpty = Err E_none /\
+  multiplicity (truncate_unfixed 0 (PStr [120])) = 1%nat.
+Proof. exact unfixed_defects. Qed.
+
+(** Non-vacuity: concrete values through the model. *)
+Example C11_nonvacuous :
+  to_int T_u8 (PStr [32; 50; 53; 53; 0]) = Ok 255%Z /\                 (* " 255\0" *)
+  to_int T_u8 (PStr [50; 53; 54]) = Err E_parse_int /\                   (* "256" *)
+  to_int T_i16 (PNum KU16 [65535%Z]) = Err E_narrow /\
+  to_multi_int T_i64 (PNum KI32 [1; -1]%Z) = Ok [1; -1]%Z /\
+  to_multi_int T_u32 (PNum KI32 [1; -1]%Z) = Err E_narrow /\
+  in_range T_i8 (-128)%Z /\
+  wrap KI16 65535 = (-1)%Z /\ wrap KU8 (-1) = 255%Z /\
+  truncate 0 (PStr [120]) = PEmpty.
+Proof. repeat split; vm_compute; congruence. Qed.
+
+Check C11_int_exact : forall T v n,
+  to_int T v = Ok n <-> first_number (t_signed T) v = Some n /\ in_range T n.
+Check C11_multi_int_exact : forall T v l,
+  to_multi_int T v = Ok l <-> all_numbers (t_signed T) v = Some l /\ Forall (in_range T) l.
+Check C11_multi_int_empty : forall T v,
+  multiplicity v = 0%nat -> int_convertible v -> to_multi_int T v = Ok [].
+Check C11_multi_float_empty : forall conv tgt v,
+  multiplicity v = 0%nat -> float_convertible v -> to_multi_float conv tgt v = Ok [].
+Check C11_multi_float_len : forall conv tgt v l,
+  to_multi_float conv tgt v = Ok l -> length l = multiplicity v.
+Check C11_truncate : forall k v,
+  items (truncate k v) = firstn k (items v) /\ multiplicity (truncate k v) = Nat.min k (multiplicity v).
+Print Assumptions C11_int_exact.
+Print Assumptions C11_multi_int_exact.
+Print Assumptions C11_multi_int_len.
+Print Assumptions C11_multi_int_empty.
+Print Assumptions C11_single_is_first.
+Print Assumptions C11_int_total.
+Print Assumptions C11_padded_text.
+Print Assumptions C11_multi_float.
+Print Assumptions C11_multi_float_len.
+Print Assumptions C11_multi_float_empty.
+Print Assumptions C11_float_single_is_first.
+Print Assumptions C11_float_same_width.
+Print Assumptions C11_truncate.
+Print Assumptions C11_extend_str.
+Print Assumptions C11_extend_num.
+Print Assumptions C11_extend_int_cast.
+Print Assumptions C11_unfixed_defects.
